@@ -10,6 +10,9 @@ MInit == Init /\ hist = <<>>
 MNext == Len(hist) < MaxSteps /\ (A_Update \/ A_Stage \/ A_Commit)
 MSpec == MInit /\ [][MNext]_<<vars, hist>>
 MView == <<vars, Len(hist)>>
-\* -simulate generator: one line per finished walk
-GPrint == Len(hist) = MaxSteps => PrintT(<<"BEHAVIOUR", ToJson(hist)>>)
+\* -simulate generator: one line per finished walk (the closing step has a single successor, so that the
+\* simulator, which evaluates invariants on all successors, prints the chosen walk only)
+G_Done == Len(hist) = MaxSteps /\ hist' = Append(hist, [op |-> "end", caller |-> Owner, ch |-> <<>>]) /\ UNCHANGED vars
+GSpec == MInit /\ [][MNext \/ G_Done]_<<vars, hist>>
+GPrint == Len(hist) = MaxSteps + 1 => PrintT(<<"BEHAVIOUR", ToJson(SubSeq(hist, 1, MaxSteps))>>)
 =============================================================================
